@@ -325,17 +325,25 @@ class Runtime:
     def int_body(self, node: str, args: dict) -> Any:
         rec = self._begin(node, args, kind="interrupt")
         self._run_monitors(rec)
-        self._maybe_raise(rec, "before")
-        val = self._interrupt_response(node, args, rec)
+        self._track_enter(rec)  # a handler is the interrupt node's function: it counts as an executing node function
+        try:
+            self._maybe_raise(rec, "before")
+            val = self._interrupt_response(node, args, rec)
+        finally:
+            self._track_exit(rec)
         self.log("exit", n=node, r=rec["r"], i=rec["i"], key=rec["key"], v=val, c=rec["c"], nk="interrupt")
         return val
 
     async def aint_body(self, node: str, args: dict) -> Any:
         rec = self._begin(node, args, kind="interrupt")
         self._run_monitors(rec)
-        self._maybe_raise(rec, "before")
-        await self._wait(rec["key"])
-        val = self._interrupt_response(node, args, rec)
+        self._track_enter(rec)
+        try:
+            self._maybe_raise(rec, "before")
+            await self._wait(rec["key"])
+            val = self._interrupt_response(node, args, rec)
+        finally:
+            self._track_exit(rec)
         self.log("exit", n=node, r=rec["r"], i=rec["i"], key=rec["key"], v=val, c=rec["c"], nk="interrupt")
         return val
 
